@@ -517,6 +517,8 @@ func (e *c11Env) step(op string) string {
 			Key: lib.UnHex(f[2]), Value: []byte(f[3]), Timestamp: timestamppb.New(time.Unix(0, 0))}}})
 	case "redeploy":
 		return e.redeploy()
+	case "complete":
+		return e.send("sr"+f[1], &workerpb.Event{Event: &workerpb.Event_SourceComplete{SourceComplete: &workerpb.SourceCompleteEvent{}}})
 	case "wm":
 		return e.send("sr"+f[1], &workerpb.Event{Event: &workerpb.Event_Watermark{Watermark: &workerpb.Watermark{Timestamp: timestamppb.New(timeOfNs(f[2]))}}})
 	}
@@ -540,6 +542,107 @@ func c11Interleave(lists [][]string, cur []string, out *[][]string) {
 	}
 }
 
+// c11OperatorCase generates a history for the real Operator: keyed events (whose handler response registers timers),
+// watermark messages, source completions and redeployments from 1-4 runners. hdr is "M C11" or "M C10 op".
+func c11OperatorCase(r *lib.Rng, hdr string) lib.Case {
+	runners := r.Range(1, 4)
+	maxBatch := r.Range(0, 4)
+	c := lib.Case{Header: fmt.Sprintf("%s 0 %d %d 1", hdr, maxBatch, runners), Tags: []string{"operator"}}
+	if runners > 1 {
+		c.Tags = append(c.Tags, "multi")
+	}
+	tag := func(t string) {
+		for _, x := range c.Tags {
+			if x == t {
+				return
+			}
+		}
+		c.Tags = append(c.Tags, t)
+	}
+	grid := r.Range(6, 30)
+	scale := lib.Pick(r, []int64{1, 1, 1000, 1_000_000_000})
+	wms := make([]int64, runners)
+	active := make([]int, runners)
+	reset := func() {
+		active = active[:0]
+		for k := 0; k < runners; k++ {
+			active = append(active, k)
+			wms[k] = 0
+		}
+	}
+	reset()
+	n := r.Range(8, 50)
+	keys := []string{"6b", "61", "6262", "00"}
+	for j := 0; j < n; j++ {
+		if r.Chance(1, 25) {
+			c.Ops = append(c.Ops, "redeploy")
+			tag("redeploy")
+			reset()
+			continue
+		}
+		// a bounded source finishes: its runner sends SourceComplete and nothing afterwards (the operator stops when
+		// its last active runner completes, so one always stays)
+		if len(active) > 1 && r.Chance(1, 12) {
+			x := r.Intn(len(active))
+			c.Ops = append(c.Ops, fmt.Sprintf("complete %d", active[x]))
+			active = append(active[:x], active[x+1:]...)
+			tag("complete")
+			continue
+		}
+		if r.Chance(1, 2) {
+			k := r.Intn(4)
+			ts := "-"
+			if k > 0 {
+				parts := make([]string, k)
+				for x := range parts {
+					parts[x] = strconv.FormatInt(int64(r.Intn(grid))*scale, 10)
+				}
+				ts = strings.Join(parts, ",")
+			}
+			c.Ops = append(c.Ops, fmt.Sprintf("keyed %d %s %s", lib.Pick(r, active), lib.Pick(r, keys), ts))
+		} else {
+			ri := lib.Pick(r, active)
+			if r.Chance(1, 10) {
+				wms[ri] = int64(r.Intn(grid)) * scale
+			} else {
+				wms[ri] += int64(r.Intn(grid/3+1)) * scale
+			}
+			c.Ops = append(c.Ops, fmt.Sprintf("wm %d %d", ri, wms[ri]))
+		}
+	}
+	for _, ri := range active {
+		c.Ops = append(c.Ops, fmt.Sprintf("wm %d %d", ri, int64(grid+1)*scale))
+	}
+	for j := 0; j < 4; j++ {
+		c.Ops = append(c.Ops, fmt.Sprintf("keyed %d 61 -", active[0])) // push out what is still batched
+	}
+	return c
+}
+
+// c11CompletionCases: one runner completes early while another is ahead in event time; the completed runner's final
+// watermark keeps bounding the operator's watermark (timers 10..40 stay pending at composite 5, fire when ... never here).
+func c11CompletionCases(hdr string) []lib.Case {
+	return []lib.Case{
+		{Header: hdr + " 0 1 2 1", Tags: []string{"complete", "multi", "operator"},
+			Ops: []string{"keyed 0 6b 10,20,30,40", "wm 0 5", "wm 1 25", "complete 0", "wm 1 35", "keyed 1 61 -", "wm 1 60", "keyed 1 61 -"}},
+		{Header: hdr + " 0 2 3 1", Tags: []string{"complete", "multi", "operator"},
+			Ops: []string{"keyed 0 6b 3,8,12", "wm 0 9", "wm 1 4", "wm 2 20", "complete 1", "wm 0 15", "wm 2 30", "complete 2", "wm 0 40", "keyed 0 61 -", "keyed 0 61 -"}},
+	}
+}
+
+// c11RunOperatorOps runs operator-mode ops (header fields from the lateness on) on the real Operator.
+func c11RunOperatorOps(hdr []string, ops []string) []string {
+	c11Quiet.Do(func() { slog.SetDefault(slog.New(slog.NewTextHandler(io.Discard, nil))) }) // the operator logs through the default logger
+	lat, _ := strconv.ParseInt(hdr[2], 10, 64)
+	e := &c11Env{w: wmark.VerifNewWatermarker(time.Duration(lat)), hdr: hdr}
+	defer e.close()
+	out := make([]string, 0, len(ops))
+	for _, op := range ops {
+		out = append(out, e.step(op))
+	}
+	return out
+}
+
 func propC11() *lib.Prop {
 	return &lib.Prop{
 		ID:   "C11",
@@ -548,7 +651,7 @@ func propC11() *lib.Prop {
 			"(b) keyed events (whose handler response registers timers) and watermark messages from 1-4 runners in scripted interleavings sent to a real Operator (one key group, in-memory DKV, batch sizes 1-4); compared: " +
 			"(a') the same sequences sent through the real SourceRunner.sendOperatorEvent (placeholders resolved with event batches, watermark placeholders stamped when sent) to a recording operator; " +
 			"(c) the runner's real event loop (Start, HandleDeploy, processEvents, the send goroutine, key-event fetcher and operator batching with batch sizes 1-5 and no batch delay) fed by a scripted source and harness-controlled watermark ticks: the stream the operator receives, every value read at delivery, against the delivered-stream model; " +
-			"redeployments of the same Operator (HandleDeploy again, fresh storage) at arbitrary points; " +
+			"source completions (SourceComplete of a runner while others go on) and redeployments of the same Operator (HandleDeploy again, fresh storage) at arbitrary points; " +
 			"every ProcessEventBatchRequest (Watermark field, keyed and TimerExpired events in order) and the registry's composite after each message; non-trivial = at least 2 runners whose latest watermarks differ at some point and a timer fired, or an unordered timestamp sequence with at least one sample; " +
 			"fixed cases enumerate all interleavings of 2-3 runners x up to 2-3 messages",
 		NumCases: func(tier string) int {
@@ -586,6 +689,7 @@ func propC11() *lib.Prop {
 			// time.Time{} again, not the previous deployment's watermark
 			cs = append(cs, lib.Case{Header: "M C11 0 1 2 1", Tags: []string{"redeploy", "multi"},
 				Ops: []string{"keyed 0 6b 50000000000,200000000000", "wm 0 100000000000", "wm 1 100000000000", "keyed 0 61 -", "redeploy", "keyed 0 61 -", "keyed 1 6b 7", "wm 0 5", "keyed 0 61 -", "wm 1 9", "keyed 0 61 -"}})
+			cs = append(cs, c11CompletionCases("M C11")...)
 			// before any watermark message the handler is told time.Time{}; a runner that saw no event reports below the epoch
 			cs = append(cs, lib.Case{Header: "M C11 0 2 2 1", Tags: []string{"initial"},
 				Ops: []string{"tick", "keyed 0 6b 5", "keyed 1 6b 0", "wm 0 10", "keyed 0 61 -", "wm 1 -62135596800000000001", "keyed 0 61 -", "keyed 0 61 -", "wm 1 7", "keyed 0 61 -"}})
@@ -673,69 +777,9 @@ func propC11() *lib.Prop {
 				return c
 			}
 			// (b) operator
-			runners := r.Range(1, 4)
-			maxBatch := r.Range(0, 4)
-			c := lib.Case{Header: fmt.Sprintf("M C11 0 %d %d 1", maxBatch, runners), Tags: []string{"operator"}}
-			if runners > 1 {
-				c.Tags = append(c.Tags, "multi")
-			}
-			grid := r.Range(6, 30)
-			scale := lib.Pick(r, []int64{1, 1, 1000, 1_000_000_000})
-			wms := make([]int64, runners)
-			n := r.Range(8, 50)
-			keys := []string{"6b", "61", "6262", "00"}
-			for j := 0; j < n; j++ {
-				if r.Chance(1, 25) {
-					c.Ops = append(c.Ops, "redeploy")
-					if len(c.Tags) == 0 || c.Tags[len(c.Tags)-1] != "redeploy" {
-						c.Tags = append(c.Tags, "redeploy")
-					}
-					for k := range wms {
-						wms[k] = 0
-					}
-					continue
-				}
-				if r.Chance(1, 2) {
-					k := r.Intn(4)
-					ts := "-"
-					if k > 0 {
-						parts := make([]string, k)
-						for x := range parts {
-							parts[x] = strconv.FormatInt(int64(r.Intn(grid))*scale, 10)
-						}
-						ts = strings.Join(parts, ",")
-					}
-					c.Ops = append(c.Ops, fmt.Sprintf("keyed %d %s %s", r.Intn(runners), lib.Pick(r, keys), ts))
-				} else {
-					ri := r.Intn(runners)
-					if r.Chance(1, 10) {
-						wms[ri] = int64(r.Intn(grid)) * scale
-					} else {
-						wms[ri] += int64(r.Intn(grid/3+1)) * scale
-					}
-					c.Ops = append(c.Ops, fmt.Sprintf("wm %d %d", ri, wms[ri]))
-				}
-			}
-			for ri := 0; ri < runners; ri++ {
-				c.Ops = append(c.Ops, fmt.Sprintf("wm %d %d", ri, int64(grid+1)*scale))
-			}
-			for j := 0; j < 4; j++ {
-				c.Ops = append(c.Ops, "keyed 0 61 -") // push out what is still batched
-			}
-			return c
+			return c11OperatorCase(r, "M C11")
 		},
-		Impl: func(c lib.Case) []string {
-			c11Quiet.Do(func() { slog.SetDefault(slog.New(slog.NewTextHandler(io.Discard, nil))) }) // the operator logs through the default logger
-			hdr := strings.Fields(c.Header)
-			lat, _ := strconv.ParseInt(hdr[2], 10, 64)
-			e := &c11Env{w: wmark.VerifNewWatermarker(time.Duration(lat)), hdr: hdr}
-			defer e.close()
-			out := make([]string, 0, len(c.Ops))
-			for _, op := range c.Ops {
-				out = append(out, e.step(op))
-			}
-			return out
-		},
+		Impl: func(c lib.Case) []string { return c11RunOperatorOps(strings.Fields(c.Header), c.Ops) },
 		Nontrivial: func(c lib.Case, out []string) bool {
 			multi, wmk := false, false
 			for _, t := range c.Tags {
